@@ -25,7 +25,32 @@ let run_xxh (c : case) : string =
   | "xxhbig" -> "big=1"   (* decided by the implementation-side oracle; see harness/xxh.go *)
   | k -> failwith ("unknown kind " ^ k)
 
+(* ---- block decoders ---- *)
+let fill_dst n fa fb = List.init n (fun i -> byte_tab.((i * fa + fb) land 255))
+let rec take n l = if n <= 0 then [] else match l with [] -> [] | x :: r -> x :: take (n-1) r
+let show_dres pfx = function
+  | DErr -> Printf.sprintf "%sres=err" pfx
+  | DOk (n, dst) -> Printf.sprintf "%sres=ok %sn=%s %sdst=%s" pfx pfx (z_to_dec n) pfx (hex_of_bytes dst)
+let run_dec (c : case) : string =
+  let src = get_bytes c "src" and dict = get_bytes c "dict" in
+  let dstlen = get_int c "dstlen" in
+  let dst0 = fill_dst dstlen (get_int c "fa") (get_int c "fb") in
+  let spec = (match spec_decode_x src dict (z_of_int dstlen) with
+    | None -> "ref_res=err"
+    | Some out -> Printf.sprintf "ref_res=ok ref_n=%d ref_out=%s" (List.length out) (hex_of_bytes out)) in
+  let a = show_dres "a_" (decode_asm src dst0 dict) in
+  let p = show_dres "p_" (decode_portable src dst0 dict) in
+  (* on small inputs the clean quadratic specification is run as well *)
+  let slow = if List.length src <= 300 && dstlen <= 2000 && List.length dict <= 300 then
+      (match spec_decode src dict (z_of_int dstlen), spec_decode_x src dict (z_of_int dstlen) with
+       | None, None -> " oracle_specx=ok"
+       | Some a, Some b when a = b -> " oracle_specx=ok"
+       | _ -> " oracle_specx=fail:sdecx-differs-from-sdec")
+    else "" in
+  String.concat " " [spec; a; p] ^ slow
+
 let dispatch (c : case) : string =
+  if c.kind = "dec" then run_dec c else
   if String.length c.kind >= 3 && String.sub c.kind 0 3 = "xxh" then run_xxh c
   else failwith ("unknown kind " ^ c.kind)
 
